@@ -8,6 +8,7 @@ import StepModel.P21.ReaderLemmas22
 import StepModel.P21.ReaderLemmas23
 import StepModel.P21.ReaderLemmas25
 import StepModel.P21.ReaderLemmas27
+import StepModel.P21.ReaderLemmas29
 import StepModel.Generated.P21RWGen
 /-! # C03 — the reader never reports a violating file as clean: property theorems
 
@@ -2278,6 +2279,36 @@ theorem C03_unterminated_record_confined_partial {F} (ops : FloatOps F) (lex : L
   · rw [C03_exit_iff_worse_than_usermsg, hsev, if_pos (by omega)]
     exact Int.lt_of_le_of_lt (greater_le_right _ _) (by decide)
 
+/-- **a SELECT value outside the select list, reference form**: for an attribute of a select type, a reference `#id` to an
+    instance that exists but answers to none of the select's entity members (`assignEntity` finds no member: the value is of
+    a type outside the select list): `SDAI_Select::STEPread` stores nothing and returns WARNING; the attribute is unset,
+    any layout behind the reference is stepped over and the stream rests at the delimiter (`ParamRd`) - so by
+    `C03_violation_confined_partial` the record, the file and p21read's exit status are flagged and everything else keeps
+    its value.  (The keyword form is `C03_foreign_select_keyword_detected`, a dangling reference reads the same way with
+    `readEntityRef`'s own WARNING.) -/
+theorem C03_select_reference_outside_list_detected {F} (env : Env F) (strict : Bool) (hcfg : env.lex.criSkipsComments = true)
+    (a : AttrD) (n : String) (hty : a.ty = .one (.select n)) (hder : a.derived = false) (hred : a.redefining = false)
+    (sd : SelectD) (hsd : env.dict.select? n = some sd)
+    (ds : List Byte) (hne : ds ≠ []) (hds : ds.all isDigit = true) (hhi : ((digitsVal ds 0 : Nat) : Int) ≤ IStream.intMax)
+    (names : List String) (hnames : env.lookup ((digitsVal ds 0 : Nat) : Int) = some names)
+    (hasg : assignEntity env sd ((digitsVal ds 0 : Nat) : Int) = none)
+    (before after : List Byte) (hb : Seps before) (ha : Seps after) :
+    ParamRd env strict { a := a, v := .one (.atom .unset), tok := 35 :: ds, before := before, after := after } .warning :=
+  ⟨hred, ⟨35, ds, rfl, by decide, by decide, by decide⟩, hb, fun l sk d rest hd =>
+    ⟨sk, Or.inl rfl, by
+      simpa using attr_select_ref_nomember env strict a n hty hder hcfg sd hsd ds hne hds hhi names hnames hasg l sk after ha d rest hd⟩⟩
+
+/-- … and as an element of an aggregate of selects (re-export of `ElemRdS.selRef_nomember`): WARNING, unset, the loop goes
+    on behind it; with `C03_violation_inside_aggregate_detected` up to the file verdict -/
+theorem C03_select_reference_outside_list_element_detected {F} (env : Env F) (hcfg : env.lex.criSkipsComments = true)
+    (hagg : env.cfg.aggrSkipsComments = true) (n : String) (sd : SelectD) (hsd : env.dict.select? n = some sd)
+    (ds : List Byte) (hne : ds ≠ []) (hds : ds.all isDigit = true) (hhi : ((digitsVal ds 0 : Nat) : Int) ≤ IStream.intMax)
+    (names : List String) (hnames : env.lookup ((digitsVal ds 0 : Nat) : Int) = some names)
+    (hasg : assignEntity env sd ((digitsVal ds 0 : Nat) : Int) = none)
+    (before after : List Byte) (hb : Seps before) (ha : Seps after) :
+    ElemRdS env (.select n) { tok := 35 :: ds, before := before, after := after, v := .atom .unset } .warning :=
+  ElemRdS.selRef_nomember env hcfg hagg n sd hsd ds hne hds hhi names hnames hasg before after hb ha
+
 /-- **a violation inside a typed select value**: `KEYWORD blanks ( blanks value )` for a select attribute where the keyword
     names a non-entity member and the value between the parentheses is read with WARNING (`LeafRdS`, e.g.
     `LeafRdS.integer_junk`: `CNT_T('a')`): the attribute reader returns WARNING with the member chosen and the value unset,
@@ -2317,6 +2348,16 @@ theorem C03_integer_select_member_with_trailing_garbage_detected {F} (env : Env 
     (hsemi : env.lex.criStopsAtSemicolon = true → ∀ b ∈ j0 :: js, b ≠ 59) :
     LeafRdS env m (tok ++ j0 :: js) (.int (Grammar.denoteInteger tok)) .warning :=
   LeafRdS.integer_tok_junk env m hm tok htok hlo hhi j0 js hj0s hj047 hj0d hj hsemi
+
+/-- the value of a REAL or NUMBER member of a select that starts like no real numeral (`LEN_T('a')`; re-export of
+    `LeafRdS.real_junk`): nothing stored, WARNING - with `C03_violation_inside_typed_select_detected` and
+    `C03_violation_confined_partial` up to the file verdict -/
+theorem C03_wrong_kind_in_real_select_member_detected {F} (env : Env F) (m : SelMember) (hm : m.ty = .real ∨ m.ty = .number)
+    (j0 : Byte) (js : List Byte) (hj0s : isSpace j0 = false) (hj047 : j0 ≠ 47) (hnn : notNum j0)
+    (hj : ∀ b ∈ j0 :: js, delimAt env.lex attrDelims b = false)
+    (hsemi : env.lex.criStopsAtSemicolon = true → ∀ b ∈ j0 :: js, b ≠ 59) :
+    LeafRdS env m (j0 :: js) .unset .warning :=
+  LeafRdS.real_junk env m hm j0 js hj0s hj047 hnn hj hsemi
 
 /-- tie: the source keeps what `CheckRemainingInput` reports behind a `$` (C09's repair is in) -/
 theorem C03_source_dollar_keeps_error : Generated.rwLexCfg.dollarKeepsError = true := by decide
